@@ -134,7 +134,7 @@ def run(ctx: Ctx) -> None:
             check_run(ctx, spec, cer, soll, im)
     ctx.sample({"ahb": runs[0]["spec"], "content_evaluation": runs[0]["cer"], "soll": runs[0]["soll"], "result": runs[0]["impl"]}, limit=2)
     VC.correspondence(ctx, runs, drv)
-    ctx.assumptions += ["node expressions are evaluated by the machinery of C04-C09; the validation model takes their results as inputs",
+    ctx.assumptions += ["two models are compared with the implementation: the table walk (node results fed from the implementation's own evaluation) and the end-to-end model that scans, parses, resolves and evaluates every node expression itself (Model/Full.lean); inside the class of known finding K1 (C05) the latter may group a same-operator run differently from Lark",
                         "asyncio.gather returns results in argument order (C12)"]
 
 
